@@ -35,7 +35,7 @@ Proof. exact single_template_typed. Qed.
 Theorem C14_every_template :
   forall parts p0, plain p0 -> (forall ep, In ep parts -> simple (fst ep) /\ plain (snd ep)) ->
     get_exprs (assemble p0 parts) = map (fun ep => tmpl (fst ep)) parts.
-Proof. intros parts p0 H0 Hp. unfold get_exprs. apply scan_assemble; auto. Qed.
+Proof. exact every_template. Qed.
 
 Example C14_example :
   (* "x={{ a }}, y={{b}}" has two expressions *)
